@@ -22,6 +22,18 @@ import from earlier ones, wildcards below same-named local definitions included)
 the other by ONE loader in random order, with resolve_aliases(implicit/external variants) between
 loads sometimes and packages left for resolve_aliases(external=True) to pull in; the state after the
 last step is judged against CPython's import of all packages.
+20% of the cases are *partial sessions* (gen_partial): 2-4 top-level packages, ANY non-empty subset of them loaded
+explicitly in any order (resolve_aliases() between loads sometimes), then the deciding call with implicit x external
+True/None/False - `resolve_aliases(...)` or the `griffe.load(..., resolve_aliases=True, resolve_external=...)` shortcut; the
+harness never loads the other packages.  CPython stays the oracle for every module the collection ends up holding; with
+external=True the collection must hold every package the wildcard / alias chains of the loaded code lead through (model
+from the sources, confirmed by CPython importing only the explicitly loaded packages) and nothing no import statement
+leads to; with None/False it must hold nothing more than was loaded, and the names whose provenance passes a package
+that is not held (reference model "last binding statement wins", followed through named imports and wildcards) are out
+of the judged state, as are placeholders over such packages - everything else is judged as usual.
+The loading-order mechanism (C05-wildcard-consumed-…) explains a missing name only when the importer's wildcard can have
+been expanded by a pass that must not load packages (a `_post_load`, a resolve with external False/None) - decided from
+the observed sequence of package loads and resolve calls.
 Oracle (M-REF): a separate CPython child really imports the package and reports, per module, the
 names and the *defining identity* of every value.  Griffe: static load + resolve_aliases(
 implicit=True); names and final targets are compared; every resolved alias must present its
@@ -48,7 +60,9 @@ RULE = ("generated acyclic packages of 3-8 modules (0-2 sub-packages, optional n
         "from 'late' modules nothing imports - ancestor packages; 1-3 sources, chains, +, +=, star-unpacking; through import m [as n] "
         "+ n.__all__ or from m import __all__ as n). 40% loading sessions: 2-3 top-level packages importing from one another, one loader, random load order, "
         "resolve_aliases() between loads (implicit x external False/None/True), optionally a package only external=True pulls "
-        "in; judged after the last step. Only packages CPython imports without error are judged. distinct = digest of files; non-trivial = >=1 wildcard, "
+        "in; judged after the last step. 20% partial sessions: 2-4 packages, any non-empty subset loaded explicitly in any order, then "
+        "resolve_aliases / griffe.load(resolve_aliases=True) with implicit x external True/None/False; the others are only ever loaded by Griffe on demand. "
+        "Only packages CPython imports without error are judged. distinct = digest of files; non-trivial = >=1 wildcard, "
         ">=1 __all__ and a re-export chain of length >=2")
 LEVEL_TEXT = ("Each generated package is really imported by a CPython child and statically loaded by Griffe with alias "
               "resolution; per module the visible names (minus the dunders the interpreter sets itself and implicitly bound sub-modules, "
@@ -74,13 +88,24 @@ REQUIRED_COUNTERS = ["packages_compared", "modules_compared", "names_compared", 
                      "multi_name_from_dots_imports", "multi_name_relative_imports", "multi_name_absolute_imports",
                      "init_from_dot_imports_mixing_plain_and_renamed",
                      "init_from_dot_imports_with_renamed_child_next_to_plain_names",
-                     "multi_name_imports_mixing_sub_modules_and_members"]
+                     "multi_name_imports_mixing_sub_modules_and_members",
+                     "partial_sessions_compared", "partial_sessions_external_true", "partial_sessions_external_none",
+                     "partial_sessions_external_false", "partial_sessions_through_load_shortcut",
+                     "partial_required_packages_checked", "partial_sessions_requiring_two_or_more_unloaded_packages",
+                     "partial_chains_crossing_two_unloaded_packages_wildcard", "partial_chains_crossing_two_unloaded_packages_named",
+                     "partial_chains_crossing_two_unloaded_packages_mixed",
+                     "partial_external_true_sessions_with_wildcard_chain_over_two_unloaded_packages",
+                     "partial_sessions_judged_with_packages_left_unloaded", "partial_names_out_of_reach_not_judged",
+                     "partial_placeholders_over_unloaded_packages_left"]
 EXHAUSTIVE = {"quick": False, "thorough": False}
 ASSUMPTIONS = ["import graphs are acyclic by construction (across the packages of a session too)",
-               "a session never loads a package twice; when its last resolve_aliases() loaded packages itself, one more call settles the data (loader documentation)", "implicitly bound sub-modules (not bound by a statement of that module) are dropped on both sides"]
+               "partial sessions: names whose provenance passes a package that is not in the collection are not judged (nothing is specified for them)",
+               "a session never loads a package twice; when its last resolve_aliases() loaded packages itself, one more call settles the data (loader documentation); partial sessions: calls with the same flags are repeated until one loads no package", "implicitly bound sub-modules (not bound by a statement of that module) are dropped on both sides"]
 _SERVER: RefServer | None = None
 _WILD = [0]
 _LOADED: list[str] = []     # packages in the order the loader finished loading them (on_package_loaded), whoever asked
+_EVENTS: list[list] = []    # ["loaded", package, packages in the collection] / ["resolve", external, packages in the collection at its start]
+_PENDING: list = []         # resolve event of a `griffe.load(..., resolve_aliases=True)` shortcut: logged right after that package's load event
 
 
 def server() -> RefServer:
@@ -104,6 +129,9 @@ def make_ext():  # noqa: ANN201
 
         def on_package_loaded(self, *, pkg, loader, **kwargs):  # noqa: ANN001, ANN003, ARG002
             _LOADED.append(pkg.name)
+            _EVENTS.append(["loaded", pkg.name, sorted(loader.modules_collection.members)])
+            if _PENDING and _PENDING[0][0] == pkg.name:
+                _EVENTS.append(["resolve", _PENDING.pop(0)[1], sorted(loader.modules_collection.members)])
 
     return Counter()
 
@@ -112,48 +140,94 @@ def default_session(tops: list[str]) -> list[list]:
     return [*(["load", t] for t in tops), ["resolve", {"implicit": True, "external": False}]]
 
 
-def run_session(tops: list[str], session: list[list], root, rec=None) -> tuple[list, object, dict]:  # noqa: ANN001
-    """One loader, the session's steps in order: ["load", top] / ["resolve", {"implicit":…, "external":…}].  A package that
-    an earlier resolve_aliases(external=True) already pulled in is not loaded a second time (re-loading replaces a tree
-    other aliases already point into: C06's domain, not this one).  Afterwards every top must be present; the final
-    state is what gets judged."""
+def run_session(tops: list[str], session: list[list], root, rec=None, partial: bool = False) -> tuple[list, object, dict]:  # noqa: ANN001, C901
+    """One loader, the session's steps in order: ["load", top] / ["resolve", {"implicit":…, "external":…}] /
+    ["load", top, {"implicit":…, "external":…}] (the `griffe.load(top, resolve_aliases=True, resolve_implicit=…,
+    resolve_external=…)` shortcut on the shared collection).  A package that an earlier resolve_aliases(external=True)
+    already pulled in is not loaded a second time (re-loading replaces a tree other aliases already point into: C06's
+    domain, not this one).  Default sessions: afterwards every top must be present; the final state is what gets judged.
+    ``partial`` sessions load only a subset of the packages explicitly and never load the others themselves: what the
+    collection holds after the last step is judged as it is."""
     import griffe
 
-    loader = griffe.GriffeLoader(search_paths=[root], allow_inspection=False, extensions=griffe.load_extensions(make_ext()))
+    exts = griffe.load_extensions(make_ext())
+    loader = griffe.GriffeLoader(search_paths=[root], allow_inspection=False, extensions=exts)
     stats = {"loads_after_a_resolve": 0, "expansions_after_first_resolve": 0, "pulled_in_by_external": 0, "late_explicit_loads": 0}
     resolved_once = False
     pulled_in_now = False
     wild_at_first_resolve = None
+    last_flags = None
     _LOADED.clear()
-    for op, arg in session:
+    _EVENTS.clear()
+    _PENDING.clear()
+    for op, arg, *more in session:
         if op == "load":
             if arg in loader.modules_collection:
                 stats["pulled_in_by_external"] += 1
+                if more:
+                    # the package is there already: what is left of the shortcut is its resolve_aliases() call
+                    n_loaded = len(_LOADED)
+                    _EVENTS.append(["resolve", more[0].get("external", False), sorted(loader.modules_collection.members)])
+                    loader.resolve_aliases(implicit=bool(more[0].get("implicit", True)), external=more[0].get("external", False))
+                    pulled_in_now = len(_LOADED) > n_loaded
+                    last_flags = more[0]
+                    if not resolved_once:
+                        resolved_once = True
+                        wild_at_first_resolve = _WILD[0]
+                continue
+            if more:
+                flags = more[0]
+                n_loaded = len(_LOADED)
+                _PENDING.append([arg, flags.get("external", False)])
+                griffe.load(arg, search_paths=[root], allow_inspection=False, extensions=exts, try_relative_path=False,
+                            modules_collection=loader.modules_collection, lines_collection=loader.lines_collection,
+                            resolve_aliases=True, resolve_implicit=bool(flags.get("implicit", True)),
+                            resolve_external=flags.get("external", False))
+                _PENDING.clear()
+                pulled_in_now = len(_LOADED) > n_loaded + 1
+                last_flags = flags
+                if not resolved_once:
+                    resolved_once = True
+                    wild_at_first_resolve = _WILD[0]
                 continue
             loader.load(arg)
             if resolved_once:
                 stats["loads_after_a_resolve"] += 1
         else:
             n_loaded = len(_LOADED)
+            _EVENTS.append(["resolve", arg.get("external", False), sorted(loader.modules_collection.members)])
             loader.resolve_aliases(implicit=bool(arg.get("implicit", True)), external=arg.get("external", False))
             pulled_in_now = len(_LOADED) > n_loaded
+            last_flags = arg
             if not resolved_once:
                 resolved_once = True
                 wild_at_first_resolve = _WILD[0]
-    if session and session[-1][0] == "resolve" and pulled_in_now:
+    if session and (session[-1][0] == "resolve" or len(session[-1]) > 2) and pulled_in_now:
         # the last call loaded packages itself: data "requires subsequent calls" (loader docs) - settle once more
-        loader.resolve_aliases(implicit=True, external=False)
-        stats["settle_resolves"] = 1
-    for t in tops:
+        settle = {"implicit": True, "external": False}
+        if partial:
+            settle = {"implicit": bool(last_flags.get("implicit", True)), "external": last_flags.get("external", False)}
+        stats["settle_resolves"] = 0
+        while pulled_in_now and stats["settle_resolves"] <= len(tops):
+            # partial sessions: a settling call that loads packages itself needs a subsequent call just the same
+            n_loaded = len(_LOADED)
+            _EVENTS.append(["resolve", settle["external"], sorted(loader.modules_collection.members)])
+            loader.resolve_aliases(**settle)
+            stats["settle_resolves"] += 1
+            pulled_in_now = partial and len(_LOADED) > n_loaded
+    for t in tops if not partial else ():
         if t not in loader.modules_collection:
             # nothing the session resolved pointed into it: load it now (same loader) and settle once more
             loader.load(t)
             stats["late_explicit_loads"] += 1
+            _EVENTS.append(["resolve", False, sorted(loader.modules_collection.members)])
             loader.resolve_aliases(implicit=True, external=False)
     if wild_at_first_resolve is not None:
         stats["expansions_after_first_resolve"] = _WILD[0] - wild_at_first_resolve
     stats["load_order"] = list(_LOADED)
-    return [loader.modules_collection.get_member(t) for t in tops], loader, stats
+    stats["events"] = [list(e) for e in _EVENTS]
+    held = [t for t in tops if t in loader.modules_collection]
+    return [loader.modules_collection.get_member(t) for t in held], loader, stats
 
 
 def walk_modules(mod):  # noqa: ANN001
@@ -163,15 +237,19 @@ def walk_modules(mod):  # noqa: ANN001
             yield from walk_modules(m)
 
 
-def judge(rec, case, files, tops, ref, pkgs, load_order=()) -> list[tuple]:  # noqa: ANN001, C901, PLR0912
+def judge(rec, case, files, tops, ref, pkgs, load_order=(), events=None, part: dict | None = None) -> list[tuple]:  # noqa: ANN001, C901, PLR0912
     """Returns every problem found as (what, observed, expected, finding, tried); judging goes on after a problem so that
-    a refutation of a listed mechanism cannot hide an unlisted one in the same package."""
+    a refutation of a listed mechanism cannot hide an unlisted one in the same package.  ``part`` (partial sessions):
+    {"held": packages in the collection, "tainted": per module the names whose provenance passes a package that is not
+    held, "uncertain_exports": modules whose `__all__` is composed from such a package} - those names / lists are outside
+    the judged state (nothing can be said about them while their source is not loaded), everything else is judged."""
     problems: list[tuple] = []
     from _griffe.exceptions import AliasResolutionError, CyclicAliasError
 
     implicit = implicit_submodule_names(files, ref)
     collection = pkgs[0].modules_collection
-    late = session_effects(files, ref, list(load_order))
+    late = session_effects(files, ref, list(load_order), events)
+    held = set(part["held"]) if part else None
     compositions = all_references(files, set(ref["modules"]))
     for gmod in (m for pkg in pkgs for m in walk_modules(pkg)):
         rmod = ref["modules"].get(gmod.path)
@@ -184,10 +262,17 @@ def judge(rec, case, files, tops, ref, pkgs, load_order=()) -> list[tuple]:  # n
         if src is None:
             src = files.get(rel + "/__init__.py", files.get(rel + ".py", ""))
         drop = set(implicit.get(gmod.path, set()))
+        if part:
+            out_of_reach = part["tainted"].get(gmod.path, set()) - drop
+            rec.count("partial_names_out_of_reach_not_judged", len(out_of_reach))
+            drop |= out_of_reach
         rnames = {n: v for n, v in rmod["names"].items() if n not in drop}
         gnames = {}
         for n, m in gmod.members.items():
             if n.endswith("/*"):
+                if held is not None and (m.wildcard or "").split(".", 1)[0] not in held:
+                    rec.count("partial_placeholders_over_unloaded_packages_left")
+                    continue    # its source package is not loaded: the placeholder has to stay
                 problems.append((f"unexpanded wildcard placeholder {gmod.path}.{n} left in an acyclic, fully loaded package", n, None, None, []))
                 continue
             if n in drop:
@@ -218,6 +303,8 @@ def judge(rec, case, files, tops, ref, pkgs, load_order=()) -> list[tuple]:  # n
             if gmod.exports is not None:
                 problems.append((f"{gmod.path} has exports although CPython's module has no __all__", [str(e) for e in gmod.exports], None, None, []))
                 continue
+        elif part and gmod.path in part["uncertain_exports"]:
+            rec.count("partial_exports_composed_from_unloaded_package_not_judged")
         else:
             rec.count("exports_lists_compared")
             if gmod.path in compositions:
@@ -276,6 +363,8 @@ def judge(rec, case, files, tops, ref, pkgs, load_order=()) -> list[tuple]:  # n
                     problems.append((f"alias {m.path} does not present its target: {bad[0]}", bad[1], bad[2], None, []))
                     continue
     for rname in ref["modules"]:
+        if held is not None and rname.split(".", 1)[0] not in held:
+            continue
         try:
             obj = collection.get_member(rname)
         except KeyError:
@@ -769,6 +858,168 @@ def count_composition_classes(rec, files: dict, ref: dict) -> None:  # noqa: ANN
                 rec.count("exports_composition_chains")
 
 
+def static_bindings(files: dict, ref: dict) -> dict[str, dict[str, tuple]]:
+    """Reference model of "later statements override earlier ones": per module, for every name the LAST top-level
+    statement binding it: ("def",) | ("mod", module path) | ("imp", source module, name) | ("wild", source module).  What
+    a wildcard statement binds is taken from CPython's view of its source (`__all__`, else the non-underscore names)."""
+    import ast
+
+    mods = ref["modules"]
+    out: dict[str, dict[str, tuple]] = {}
+    by_statement = {rel[:-3].replace("/", ".").removesuffix(".__init__"): packages.statement_bound_names(src) for rel, src in files.items()}
+
+    def side_effect(srcmod: str, n: str) -> bool:
+        # a sub-module bound on its package by the import system only: whether a wildcard hands it over depends on the
+        # order of imports (outside the domain, see implicit_submodule_names) - never taken as a binding here
+        return mods[srcmod]["names"].get(n) == {"k": "module", "id": f"{srcmod}.{n}"} and n not in by_statement.get(srcmod, ())
+
+    for rel, src in files.items():
+        mod = rel[:-3].replace("/", ".").removesuffix(".__init__")
+        is_pkg = rel.endswith("__init__.py")
+        table: dict[str, tuple] = {}
+        for node in ast.parse(src).body:
+            if isinstance(node, (ast.FunctionDef, ast.AsyncFunctionDef, ast.ClassDef)):
+                table[node.name] = ("def",)
+            elif isinstance(node, (ast.Assign, ast.AnnAssign, ast.AugAssign)):
+                for t in (node.targets if isinstance(node, ast.Assign) else [node.target]):
+                    if isinstance(t, ast.Name):
+                        table[t.id] = ("def",)
+            elif isinstance(node, ast.Import):
+                for a in node.names:
+                    if a.asname:
+                        table[a.asname] = ("mod", a.name)
+                    else:
+                        table[a.name.split(".")[0]] = ("mod", a.name.split(".")[0])
+            elif isinstance(node, ast.ImportFrom):
+                if node.level:
+                    base = mod.split(".") if is_pkg else mod.split(".")[:-1]
+                    base = base[: len(base) - (node.level - 1)]
+                    srcmod = ".".join(base + ([node.module] if node.module else []))
+                else:
+                    srcmod = node.module or ""
+                for a in node.names:
+                    if a.name == "*":
+                        info = mods.get(srcmod)
+                        if info is not None:
+                            handed = info["all"] if info["all"] is not None else [n for n in info["names"] if not n.startswith("_")]
+                            for n in handed:
+                                if not side_effect(srcmod, n):
+                                    table[n] = ("wild", srcmod)
+                    else:
+                        table[a.asname or a.name] = ("imp", srcmod, a.name)
+        out[mod] = table
+    return out
+
+
+def provenance(files: dict, ref: dict, held: set[str]) -> dict:
+    """What can be judged while some packages are NOT in the collection (partial sessions) - from the sources and CPython's
+    view only.  ``tainted[M]``: names of M whose provenance (last binding statement, followed through named imports and
+    wildcards) passes a package that is not held: absent / unresolvable / still showing an earlier binding - by design.
+    ``uncertain_exports``: modules whose `__all__` is composed, directly or in a chain, from a module of such a package (a
+    wildcard over them hands over an undetermined set, so whatever it binds is tainted as well)."""
+    mods = ref["modules"]
+    binds = static_bindings(files, ref)
+    top = lambda m: m.split(".", 1)[0]  # noqa: E731
+    allrefs = all_references(files, set(mods))
+    uncertain: set[str] = set()
+    changed = True
+    while changed:
+        changed = False
+        for m, xs in allrefs.items():
+            if m not in uncertain and any(top(x) not in held or x in uncertain for x in xs):
+                uncertain.add(m)
+                changed = True
+    memo: dict[tuple[str, str], bool] = {}
+
+    def t(m: str, n: str) -> bool:
+        key = (m, n)
+        if key in memo:
+            return memo[key]
+        memo[key] = True    # a cycle cannot happen in the generated code; undetermined if it did
+        if top(m) not in held:
+            r = True
+        else:
+            b = binds.get(m, {}).get(n)
+            if b is None or b[0] == "def":
+                r = False       # defined here / a sub-module bound by the import system (same package)
+            elif b[0] == "mod":
+                r = top(b[1]) not in held
+            elif b[0] == "imp":
+                r = top(b[1]) not in held or (binds.get(b[1], {}).get(b[2]) is not None and t(b[1], b[2]))
+            else:
+                r = top(b[1]) not in held or (b[1] in uncertain and mods[b[1]]["all"] is not None) or t(b[1], n)
+        memo[key] = r
+        return r
+
+    tainted = {m: {n for n in info["names"] if n != "__all__" and t(m, n)} for m, info in mods.items() if top(m) in held}
+    return {"tainted": tainted, "uncertain_exports": uncertain, "bindings": binds}
+
+
+def package_closure(files: dict, ref: dict, explicit: list[str], tops: list[str], *, implicit: bool, every_statement: bool = False) -> set[str]:
+    """Packages a `resolve_aliases(external=True, implicit=…)` has to end up holding when ``explicit`` were loaded: closure
+    over (a) every wildcard import of a held module (expanded whatever `implicit` says) and (b) every name whose last
+    binding statement is an import - all of them with implicit=True, only those listed in a literal (not composed)
+    `__all__` otherwise.  ``every_statement``: the upper bound instead - closure over every import statement at all."""
+    import ast
+
+    mods = ref["modules"]
+    binds = static_bindings(files, ref)
+    wild = wildcard_sources(files)
+    composed = all_references(files, set(mods))
+    top = lambda m: m.split(".", 1)[0]  # noqa: E731
+    every: dict[str, set[str]] = {}
+    if every_statement:
+        for rel, src in files.items():
+            mod = rel[:-3].replace("/", ".").removesuffix(".__init__")
+            for node in ast.walk(ast.parse(src)):
+                if isinstance(node, ast.Import):
+                    every.setdefault(top(mod), set()).update(top(a.name) for a in node.names)
+                elif isinstance(node, ast.ImportFrom) and not node.level and node.module:
+                    every.setdefault(top(mod), set()).add(top(node.module))
+    held = set(explicit)
+    changed = True
+    while changed:
+        changed = False
+        for m in mods:
+            if top(m) not in held:
+                continue
+            need = {top(x) for x in wild.get(m, ())} | every.get(top(m), set())
+            for n, b in binds.get(m, {}).items():
+                if b[0] in ("mod", "imp") and (implicit or (n in (mods[m]["all"] or ()) and m not in composed)):
+                    need.add(top(b[1]))
+            need = (need & set(tops)) - held
+            if need:
+                held |= need
+                changed = True
+    return held
+
+
+def cross_package_chains(files: dict, ref: dict, explicit: list[str], binds: dict) -> set[str]:
+    """Evidence: the kinds of re-export chains that start in an explicitly loaded module and cross >= 2 different packages
+    that are not loaded explicitly: "wildcard" (only `import *` hops), "named" (only named imports), "mixed"."""
+    top = lambda m: m.split(".", 1)[0]  # noqa: E731
+    out: set[str] = set()
+    for m, table in binds.items():
+        if top(m) not in explicit:
+            continue
+        for n in table:
+            kinds: list[str] = []
+            crossed: list[str] = []
+            cur_m, cur_n = m, n
+            for _ in range(30):
+                b = binds.get(cur_m, {}).get(cur_n)
+                if b is None or b[0] in ("def", "mod"):
+                    break
+                kinds.append(b[0])
+                if top(b[1]) not in explicit and top(b[1]) not in crossed:
+                    crossed.append(top(b[1]))
+                cur_m, cur_n = b[1], (b[2] if b[0] == "imp" else cur_n)
+            if len(crossed) >= 2:
+                out.add("wildcard" if set(kinds) == {"wild"} else "named" if set(kinds) == {"imp"} else "mixed")
+                out.add(f"{min(len(crossed), 3)}_packages")
+    return out
+
+
 def explains(fid: str) -> bool:
     """Only findings listed with status "known" may explain a discrepancy: the classifier of a repaired ("fixed")
     mechanism is never offered (it could shadow a listed explanation of the same witness; the mechanism coming back is
@@ -783,7 +1034,7 @@ F_WILD_STACK = "C05-wildcard-over-module-still-being-expanded"
 F_EXPORTS_STACK = "C05-exports-spliced-from-module-still-being-expanded"
 
 
-def session_effects(files: dict, ref: dict, load_order: list[str]) -> dict:
+def session_effects(files: dict, ref: dict, load_order: list[str], events: list | None = None) -> dict:
     """What the *order of expansion* can cost a module, derived from the sources, CPython's view and the order in which
     the loader finished loading the packages (on_package_loaded) - never from Griffe's answer.  Three listed mechanisms,
     each with its own sets (``groups``: finding id -> {"late", "missed", "dropped"}):
@@ -837,7 +1088,36 @@ def session_effects(files: dict, ref: dict, load_order: list[str]) -> dict:
                 todo.extend(e.get(m, ()))
         return out
 
-    def propagate(dropped: dict, late_cross, miss_cross) -> dict:  # noqa: ANN001
+    wreach = {t: reach([m for m in mods if m.split(".", 1)[0] == t], [wild]) for t in {m.split(".", 1)[0] for m in mods}}
+
+    def outside_external_pass(m_mod: str, s_mod: str) -> bool:
+        """Loading order only: can M's `from S import *` have been expanded by a pass that must not load packages - the
+        `_post_load` of a package (its own, or one whose wildcards lead to M), a resolve_aliases(external=False|None) - at
+        a moment S's package was in the collection?  Only such a pass can find S incomplete: an external=True pass expands
+        (and loads for) S before M collects from it, so when that is M's first chance the mechanism cannot cost M anything.
+        Decided from the observed sequence of package loads and resolve calls (never from the names Griffe shows);
+        undetermined situations count as "can"."""
+        if not events:
+            return True
+        mt, st = m_mod.split(".", 1)[0], s_mod.split(".", 1)[0]
+        for i, ev in enumerate(events):
+            if ev[0] == "loaded":
+                if st in ev[2] and (mt == ev[1] or m_mod in wreach.get(ev[1], ())):
+                    return True
+            elif ev[1] is True:
+                if mt not in ev[2]:
+                    return True     # M's package arrives during this pass: its own _post_load may come first
+                for nxt in events[i + 1:]:
+                    if nxt[0] != "loaded":
+                        break
+                    if m_mod in wreach.get(nxt[1], ()):
+                        return True     # a package loaded on demand during the pass re-enters M from its _post_load
+                return False
+            elif mt in ev[2] and st in ev[2]:
+                return True
+        return True
+
+    def propagate(dropped: dict, late_cross, miss_cross, guard=lambda m, s: True) -> dict:  # noqa: ANN001
         late: dict[str, set[str]] = {m: set() for m in mods}
         missed: dict[str, set[str]] = {m: set() for m in mods}
         changed = True
@@ -848,7 +1128,7 @@ def session_effects(files: dict, ref: dict, load_order: list[str]) -> dict:
                     for n in exposed(x):
                         if not same(s_mod, x, n):
                             continue
-                        miss = n in late[x] or n in dropped[x] or miss_cross(s_mod, x, n)
+                        miss = n in missed[x] or (n in late[x] and guard(s_mod, x)) or n in dropped[x] or miss_cross(s_mod, x, n)
                         if n not in late[s_mod] and (miss or late_cross(s_mod, x)):
                             late[s_mod].add(n)
                             changed = True
@@ -875,7 +1155,7 @@ def session_effects(files: dict, ref: dict, load_order: list[str]) -> dict:
             if before(m_mod, x):
                 d1[m_mod] |= set(mods[x]["all"] or ())
     close_over_refs(d1)
-    g1 = propagate(d1, before, never)
+    g1 = propagate(d1, before, never, outside_external_pass)
     # 2. wildcard over a module still being expanded
     received = {m: {n for x in wild.get(m, ()) for n in exposed(x) if same(m, x, n)} for m in mods}
     below = {m: reach([*children.get(m, ()), *wild.get(m, ())], [children, wild]) for m in mods if m in wild or m in children}
@@ -1004,13 +1284,16 @@ def repeated_wildcard_keeps_older_line(mod_path: str, name: str, got: dict, want
     return False
 
 
-def run_case(rec, files: dict, top, nontrivial: bool, tags=(), session: list | None = None) -> None:  # noqa: ANN001
+def run_case(rec, files: dict, top, nontrivial: bool, tags=(), session: list | None = None, partial: bool = False) -> None:  # noqa: ANN001, C901, PLR0912, PLR0915
     """``top``: one package name or the list of top-level packages the files are spread over; ``session``: the loading
-    session (see run_session), default: load every top, then resolve_aliases(implicit=True, external=False)."""
+    session (see run_session), default: load every top, then resolve_aliases(implicit=True, external=False);
+    ``partial``: the session loads only some of the packages and the others are never loaded by the harness."""
     tops = [top] if isinstance(top, str) else list(top)
     case = {"files": files, "top": top}
     if session is not None:
         case["session"] = session
+    if partial:
+        case["partial"] = True
     try:
         with case_watchdog(120), tmp_tree(files) as root:
             rep = server().import_package(str(root), tops)
@@ -1035,10 +1318,19 @@ def run_case(rec, files: dict, top, nontrivial: bool, tags=(), session: list | N
                 rec.skip("member-shadows-submodule")
                 return
             _WILD[0] = 0
-            pkgs, _loader, stats = run_session(tops, session or default_session(tops), root)
+            pkgs, _loader, stats = run_session(tops, session or default_session(tops), root, partial=partial)
             rec.count("packages_compared")
             rec.count("wildcard_expansions_observed", _WILD[0])
-            if session is not None:
+            part = None
+            extra: list[tuple] = []
+            if partial:
+                rec.maximum("partial_settling_calls_max", stats.get("settle_resolves", 0))
+                if stats.get("settle_resolves", 0) > 1:
+                    rec.count("partial_sessions_settled_by_more_than_one_call")
+                part, extra = partial_expectations(rec, files, tops, ref, session, pkgs, str(root))
+                if part is None:
+                    return
+            elif session is not None:
                 rec.count("sessions_compared")
                 rec.count("session_loads_after_a_resolve", stats["loads_after_a_resolve"])
                 rec.count("session_wildcard_expansions_after_first_resolve", stats["expansions_after_first_resolve"])
@@ -1047,7 +1339,7 @@ def run_case(rec, files: dict, top, nontrivial: bool, tags=(), session: list | N
                 count_session_classes(rec, files, ref, tops, session)
             count_input_classes(rec, files, ref)
             count_composition_classes(rec, files, ref)
-            res = judge(rec, case, files, tops, ref, pkgs, stats["load_order"])
+            res = extra + judge(rec, case, files, tops, ref, pkgs, stats["load_order"], stats["events"], part)
     except Exception as exc:  # noqa: BLE001
         rec.fail_exc(case, f"{type(exc).__name__} while loading / resolving an acyclic package", exc, nontrivial=nontrivial, tags=tags)
         return
@@ -1098,6 +1390,120 @@ def count_session_classes(rec, files: dict, ref: dict, tops: list[str], session:
                     rec.count("late_wildcards_overriding_earlier_local_definition")
                     if any((mod, n) in explicit for n in rebound):
                         rec.count("late_wildcard_overrides_imported_explicitly_elsewhere")
+
+
+def partial_expectations(rec, files: dict, tops: list[str], ref: dict, session: list, pkgs: list, root: str) -> tuple[dict | None, list[tuple]]:  # noqa: ANN001
+    """Partial session: which packages the collection must / may hold afterwards (problems returned), what is out of reach
+    of the judgement (``part`` for judge), evidence counters.  CPython importing only the explicitly loaded packages (which
+    pulls in the others) confirms the model of the required packages."""
+    problems: list[tuple] = []
+    explicit = [op[1] for op in session if op[0] == "load"]
+    flags = [op[2] if op[0] == "load" else op[1] for op in session if op[0] == "resolve" or len(op) > 2]
+    last = flags[-1]
+    ext_true = [f for f in flags if f.get("external", False) is True]
+    held = {p.path for p in pkgs}
+    entry = sorted(m for m in ref["modules"] if m.split(".", 1)[0] in explicit)
+    rep = server().import_package(root, tops, entry=entry)
+    if not rep.get("ok") or rep["result"]["errors"]:
+        rec.inconclusive({"files": files, "top": tops, "session": session, "partial": True}, "reference child failed on the explicitly loaded packages")
+        return None, []
+    pulled = {m.split(".", 1)[0] for m in rep["result"]["modules"]}
+    rec.count("partial_sessions_compared")
+    rec.count("partial_packages_loaded_explicitly", len(explicit))
+    rec.count("partial_packages_cpython_pulls_in", len(pulled - set(explicit)))
+    rec.count("partial_packages_griffe_pulled_in", len(held - set(explicit)))
+    if any(len(op) > 2 for op in session):
+        rec.count("partial_sessions_through_load_shortcut")
+    upper = package_closure(files, ref, explicit, tops, implicit=True, every_statement=True)
+    if not ext_true:
+        upper = set(explicit)
+    if not held <= upper:
+        problems.append(("packages loaded that no import statement of the loaded code leads to" if ext_true else
+                         "packages loaded on demand although no call allowed it (external False/None)", sorted(held - upper), sorted(upper), None, []))
+    if last.get("external", False) is True:
+        rec.count("partial_sessions_external_true")
+        required = package_closure(files, ref, explicit, tops, implicit=bool(last.get("implicit", True)))
+        if not required <= pulled:
+            rec.count("partial_required_model_not_confirmed_by_cpython")   # stays 0: CPython imports at least what the model requires
+            required &= pulled
+        rec.count("partial_required_packages_checked", len(required - set(explicit)))
+        if len(required - set(explicit)) >= 2:
+            rec.count("partial_sessions_requiring_two_or_more_unloaded_packages")
+        if not required <= held:
+            problems.append(("resolve_aliases(external=True) left a package unloaded that wildcard / alias chains of the loaded code lead through",
+                             sorted(held), sorted(required), None, []))
+    else:
+        rec.count("partial_sessions_external_none" if last.get("external", False) is None else "partial_sessions_external_false")
+    if set(tops) - held:
+        rec.count("partial_sessions_judged_with_packages_left_unloaded")
+    part = {"held": sorted(held), **provenance(files, ref, held)}
+    kinds = cross_package_chains(files, ref, explicit, part["bindings"])
+    for kind in kinds:
+        rec.count(f"partial_chains_crossing_two_unloaded_packages_{kind}")
+    if last.get("external", False) is True and kinds & {"wildcard", "mixed"}:
+        rec.count("partial_external_true_sessions_with_wildcard_chain_over_two_unloaded_packages")
+    del part["bindings"]
+    return part, problems
+
+
+def package_import_graph(files: dict) -> dict[str, set[str]]:
+    import ast
+
+    graph: dict[str, set[str]] = {}
+    for rel, src in files.items():
+        own = rel.split("/", 1)[0]
+        for node in ast.walk(ast.parse(src)):
+            if isinstance(node, ast.Import):
+                graph.setdefault(own, set()).update(a.name.split(".")[0] for a in node.names)
+            elif isinstance(node, ast.ImportFrom) and not node.level and node.module:
+                graph.setdefault(own, set()).add(node.module.split(".")[0])
+    return {k: v - {k} for k, v in graph.items()}
+
+
+def gen_partial(rng: random.Random) -> tuple[dict, list[str], list[list]]:
+    """Partial loading session: 2-4 top-level packages (later ones import from earlier ones, often: wildcards, named
+    re-exports, module imports, `__all__` compositions - chains can cross every package); ANY non-empty subset of them is
+    loaded explicitly, in any order (subsets from which the import statements lead into several other packages are
+    preferred), resolve_aliases() between the loads sometimes, then the deciding call: resolve_aliases(implicit=…,
+    external=True | None | False) or the `griffe.load(last, resolve_aliases=True, resolve_implicit=…, resolve_external=…)`
+    shortcut.  The packages left out are never loaded by the harness."""
+    import itertools
+
+    names = ["pa", "pb", "pc", "pd"][: rng.choice([2, 3, 3, 3, 4])]
+    pkgs: list[packages.Pkg] = []
+    files: dict[str, str] = {}
+    for nm in names:
+        pkg = packages.gen_package(rng, nm, with_docs=True, nmods=(2, 4), foreign=list(pkgs), foreign_prob=rng.choice([0.4, 0.6, 0.8]),
+                                   late=0.3, compose_prob=0.4)
+        pkgs.append(pkg)
+        files.update(pkg.files())
+    graph = package_import_graph(files)
+
+    def reach(subset: tuple) -> int:
+        seen, todo = set(subset), list(subset)
+        while todo:
+            for q in graph.get(todo.pop(), ()):
+                if q in names and q not in seen:
+                    seen.add(q)
+                    todo.append(q)
+        return len(seen) - len(subset)
+
+    subsets = [c for k in range(1, len(names) + 1) for c in itertools.combinations(names, k)]
+    explicit = list(rng.choices(subsets, weights=[1 + 3 * reach(c) ** 2 for c in subsets])[0])
+    rng.shuffle(explicit)
+    final = {"implicit": rng.random() < 0.7, "external": rng.choice([True, True, True, True, None, False])}
+    shortcut = rng.random() < 0.3
+    session: list[list] = []
+    for i, t in enumerate(explicit):
+        if i == len(explicit) - 1 and shortcut:
+            session.append(["load", t, final])
+            break
+        session.append(["load", t])
+        if i < len(explicit) - 1 and rng.random() < 0.35:
+            session.append(["resolve", {"implicit": rng.random() < 0.7, "external": rng.choice([False, None, True])}])
+    if not shortcut:
+        session.append(["resolve", final])
+    return files, names, session
 
 
 def gen_session(rng: random.Random) -> tuple[dict, list[str], list[list]]:
@@ -1160,7 +1566,13 @@ def run_shard(spec: dict, rec) -> None:  # noqa: ANN001
     rng = random.Random(spec["seed"])
     try:
         for _ in range(spec["count"]):
-            if rng.random() < 0.4:
+            q = rng.random()
+            if q >= 0.8:
+                files, tops, session = gen_partial(rng)
+                nontrivial, tags = features(files)
+                run_case(rec, files, tops, nontrivial, (*tags, "partial-session"), session, partial=True)
+                continue
+            if q < 0.4:
                 files, tops, session = gen_session(rng)
                 nontrivial, tags = features(files)
                 run_case(rec, files, tops, nontrivial, (*tags, "session"), session)
@@ -1176,7 +1588,7 @@ def run_shard(spec: dict, rec) -> None:  # noqa: ANN001
 
 def run_replay(inp: dict, rec) -> None:  # noqa: ANN001
     try:
-        run_case(rec, inp["files"], inp.get("top", "pk"), True, (), inp.get("session"))
+        run_case(rec, inp["files"], inp.get("top", "pk"), True, (), inp.get("session"), partial=bool(inp.get("partial")))
     finally:
         server().close()
 
@@ -1188,7 +1600,8 @@ def run_pinned(findings: list[dict], rec) -> dict:  # noqa: ANN001
     try:
         for f in findings:
             sub = Recorder(PROP, {})
-            run_case(sub, f["witness"]["files"], f["witness"].get("top", "pk"), True, (), f["witness"].get("session"))
+            run_case(sub, f["witness"]["files"], f["witness"].get("top", "pk"), True, (), f["witness"].get("session"),
+                     partial=bool(f["witness"].get("partial")))
             out[f["id"]] = pinned_result(sub, f)
     finally:
         server().close()
